@@ -395,7 +395,7 @@ def argparse_domain(air):
 def build(prop, thorough, rnd):
     """-> list of scenarios for a property."""
     ts = D.tables(6 if thorough else 1, seed())      # T0, T1, TN (related names), then seeded random tables
-    T0, T1 = ts[0], ts[1]
+    T0, T1, TL = ts[0], ts[1], ts[3]
     single = load_domain("single")
     pair = load_domain("pair")
     triple = load_domain("triple")
@@ -430,6 +430,9 @@ def build(prop, thorough, rnd):
                     for air in single:
                         cnt += 1
                         add(tb, air, acts(kind, oo), files=bool(files_every and cnt % files_every == 0))
+                if not thorough:
+                    for air in single[oi % 3:: 3]:      # ... and a third of it with the long-text table
+                        add(TL, air, acts(kind, oo))
                 for j, air in enumerate(pair_s):
                     if many and j % len(opts) != oi:
                         continue          # ... and rotated over the multi-slot domains
@@ -506,6 +509,9 @@ def build(prop, thorough, rnd):
                 for tb in (ts if thorough else (T0, T1)):
                     for air in single:
                         add(tb, air, acts)
+                if not thorough:
+                    for air in single[:: 3]:
+                        add(TL, air, acts)
                 for j, air in enumerate(tri_s[: (len(tri_s) if thorough else 300)]):
                     add(ts[j % len(ts)], air, acts)
                 for j, air in enumerate(wide[: (len(wide) if thorough else 200)]):
